@@ -260,6 +260,12 @@ def run(chk: Check) -> None:
         corpus.append((["RP --- 01:078710 18:006402 --:------ 000C 006 000D001C4456", "RP --- 01:078710 07:017494 --:------ 10A0 006 0013880003E8",
                         " I --- 01:078710 --:------ 01:078710 1F09 003 FF0532", "RP --- 01:078710 18:006402 --:------ 10A0 006 0013880003E8"],
                        [0.5, 0.8, 7.6, 6.1]))
+        # devices whose only own traffic is requests / writes (a thermostat polling its relay, one writing a setpoint): a snapshot
+        # carries none of their packets
+        corpus.append((["RQ --- 22:054901 13:133379 --:------ 3EF1 002 0000", "RP --- 13:133379 22:054901 --:------ 3EF1 007 0000EF00EFC8FF",
+                        " I --- 13:133379 --:------ 13:133379 3EF0 003 00C8FF", " W --- 12:010740 01:145038 --:------ 2309 003 0107D0",
+                        " I --- 01:145038 12:010740 --:------ 2309 003 0107D0", "RQ --- 34:092243 01:145038 --:------ 000A 001 01",
+                        " I --- 01:145038 --:------ 01:145038 1F09 003 FF0532"], [0.5, 0.1, 1.0, 3.0, 0.1, 2.0, 5.0]))
         n_plain_corpus = len(corpus)
         for ep in range(n_ep + len(corpus)):
             fixed_gaps = None
@@ -431,7 +437,11 @@ def run(chk: Check) -> None:
         r = repr(p)
         key_reqs.append(f"log.iso\t{d.year}\t{d.month}\t{d.day}\t{d.hour}\t{d.minute}\t{d.second}\t{d.microsecond}")
         key_impl.append("ok\t" + r[:26].replace(" ", "%20;") if " " in r[:26] else "ok\t" + r[:26])
-        if r[26:27] != " " or Packet.from_dict(r[:26], r[27:]).dtm != d:
+        try:
+            restored = Packet.from_dict(r[:26], r[27:]).dtm if r[26:27] == " " else None
+        except Exception:  # noqa: BLE001  (the cut does not give a time stamp and a packet)
+            restored = None
+        if restored != d:
             chk.violation("c16.snapshot.key_format", f"repr(pkt) = {r!r}: cut at columns 26/27 it does not restore to {d.isoformat()}", {"op": "key", "dtm": d.isoformat()})
     for r, a, b in zip(key_reqs, key_impl, Model().run(key_reqs)):
         if a != b:
